@@ -479,17 +479,24 @@ def resync_plan(rng: random.Random, cfg, kind: str, nsuffix: int, big: bool = Fa
 
 
 def noflag(rng: random.Random, it: dict):
-    """Make a frame item flag-free in every octet (non-stuffing C16 suffix, DESIGN 8-9)."""
+    """Make a frame item flag-free in every octet, and not ending in the escape octet (non-stuffing C16 suffix, DESIGN 8-9 and 8-18:
+    with abort detection on, a last octet 0x7D followed by the closing flag IS an abort sequence)."""
     for _ in range(200):
         it["info"] = [b if b != FLAG else 0x7F for b in it["info"]]
         it["dst"] = [b if b != FLAG else 0x7C for b in it["dst"]]
         it["src"] = [b if b != FLAG else 0x7C for b in it["src"]]
         if it["ctrl"] == FLAG:
             it["ctrl"] = 0x13
-        if FLAG not in item_bytes(it):
+        if FLAG not in item_bytes(it) and item_bytes(it)[-1] != ESC:
             return
-        # a check sequence (or the length octet) happens to be 0x7E: perturb and retry
+        # a check sequence (or the length octet) happens to be 0x7E, or the frame ends in 0x7D: perturb and retry
         f = item_bytes(it)
+        if FLAG not in f:           # only the last octet is in the way
+            if it["info"]:
+                it["info"][-1] = rng.choice([c for c in range(256) if c != FLAG])
+            else:
+                it["ctrl"] = rng.choice([c for c in range(256) if c != FLAG])
+            continue
         hl = 2 + len(it["dst"]) + len(it["src"]) + 3
         if FLAG in f[:hl] or not it["info"]:
             it["ctrl"] = rng.choice([c for c in range(256) if c != FLAG])
